@@ -71,7 +71,11 @@ CLAIMS = {
              "random constants with digit strings up to 14 and the exhaustive lexer correspondence on numeric/quote alphabets.  "
              "UNBOUNDED theorems (all Unicode class oracles, digit strings of any length, every table suffix, every delimiter "
              "continuation): decimal, octal and binary integer constants are accepted; hexadecimal ones under two guards that are "
-             "proved to exclude exactly the recorded shapes.  Unbounded floats/chars/strings are tested, not proved.",
+             "proved to exclude exactly the recorded shapes; decimal floating constants of every form (no guard); string literals of "
+             "any length and character constants over plain characters, simple, octal and 1-2 digit hex escapes with every prefix "
+             "(partial: no tab, no di/trigraph formed inside the literal - the general case is C10's token-text theorem); "
+             "hexadecimal floats under two guards implied by the complements of the recorded findings.  The tool's suffix tables "
+             "are proved equal to the suffix grammar of the property text.",
         ref="DESIGN.md 4.11", technique="Rocq proof (unbounded induction for integer constants; complete evaluation over finite families by vm_compute) + differential lexing + family replay on the implementation",
         note=NOTE + "Modelled: lexer.py completely. Partial: the theorems are for bounded digit strings (the property's quantifier is "
              "bounded too); longer constants are only tested."),
